@@ -390,6 +390,23 @@ type zz15T12 struct {
 	F131 int8
 }
 
+// ---- T13: three levels of embedding (field index of length 4), several surviving fields at
+// every level.
+type Zz15D3 struct{ P, Q, R3 int8 }
+type Zz15D2 struct {
+	Zz15D3
+	M int8
+}
+type Zz15D1 struct {
+	Zz15D2
+	N int8
+}
+type zz15T13 struct {
+	A int8
+	Zz15D1
+	B int8
+}
+
 // zz15KFDiamond: recorded known finding (see /verif/known_findings.json): a field reachable only
 // through a struct type that is met twice at the same depth is not cancelled (type zz15T10).
 const zz15KFDiamond = "KF-C15-diamond-embedding"
@@ -427,6 +444,8 @@ func zz15Table(t int) []zz15M {
 		return []zz15M{{Name: "X"}, {Name: "Y"}, {Name: "R"}}
 	case 12:
 		return []zz15M{{Name: "F000"}, {Name: "F001"}, {Name: "F002"}, {Name: "F003"}, {Name: "F004"}, {Name: "F005"}, {Name: "F006"}, {Name: "F007"}, {Name: "F008"}, {Name: "F009"}, {Name: "F010"}, {Name: "F011"}, {Name: "F012"}, {Name: "F013"}, {Name: "F014"}, {Name: "F015"}, {Name: "F016"}, {Name: "F017"}, {Name: "F018"}, {Name: "F019"}, {Name: "F020"}, {Name: "F021"}, {Name: "F022"}, {Name: "F023"}, {Name: "F024"}, {Name: "F025"}, {Name: "F026"}, {Name: "F027"}, {Name: "F028"}, {Name: "F029"}, {Name: "F030"}, {Name: "F031"}, {Name: "F032"}, {Name: "F033"}, {Name: "F034"}, {Name: "F035"}, {Name: "F036"}, {Name: "F037"}, {Name: "F038"}, {Name: "F039"}, {Name: "F040"}, {Name: "F041"}, {Name: "F042"}, {Name: "F043"}, {Name: "F044"}, {Name: "F045"}, {Name: "F046"}, {Name: "F047"}, {Name: "F048"}, {Name: "F049"}, {Name: "F050"}, {Name: "F051"}, {Name: "F052"}, {Name: "F053"}, {Name: "F054"}, {Name: "F055"}, {Name: "F056"}, {Name: "F057"}, {Name: "F058"}, {Name: "F059"}, {Name: "F060"}, {Name: "F061"}, {Name: "F062"}, {Name: "F063"}, {Name: "F064"}, {Name: "F065"}, {Name: "F066"}, {Name: "F067"}, {Name: "F068"}, {Name: "F069"}, {Name: "F070"}, {Name: "F071"}, {Name: "F072"}, {Name: "F073"}, {Name: "F074"}, {Name: "F075"}, {Name: "F076"}, {Name: "F077"}, {Name: "F078"}, {Name: "F079"}, {Name: "F080"}, {Name: "F081"}, {Name: "F082"}, {Name: "F083"}, {Name: "F084"}, {Name: "F085"}, {Name: "F086"}, {Name: "F087"}, {Name: "F088"}, {Name: "F089"}, {Name: "F090"}, {Name: "F091"}, {Name: "F092"}, {Name: "F093"}, {Name: "F094"}, {Name: "F095"}, {Name: "F096"}, {Name: "F097"}, {Name: "F098"}, {Name: "F099"}, {Name: "F100"}, {Name: "F101"}, {Name: "F102"}, {Name: "F103"}, {Name: "F104"}, {Name: "F105"}, {Name: "F106"}, {Name: "F107"}, {Name: "F108"}, {Name: "F109"}, {Name: "F110"}, {Name: "F111"}, {Name: "F112"}, {Name: "F113"}, {Name: "F114"}, {Name: "F115"}, {Name: "F116"}, {Name: "F117"}, {Name: "F118"}, {Name: "F119"}, {Name: "F120"}, {Name: "F121"}, {Name: "F122"}, {Name: "F123"}, {Name: "F124"}, {Name: "F125"}, {Name: "F126"}, {Name: "F127"}, {Name: "F128"}, {Name: "F129"}, {Name: "F130"}, {Name: "F131"}}
+	case 13:
+		return []zz15M{{Name: "A"}, {Name: "P"}, {Name: "Q"}, {Name: "R3"}, {Name: "M"}, {Name: "N"}, {Name: "B"}}
 	}
 	return nil
 }
@@ -457,6 +476,8 @@ func zz15New(t int) any {
 		return new(zz15T11)
 	case 12:
 		return new(zz15T12)
+	case 13:
+		return new(zz15T13)
 	}
 	return nil
 }
@@ -496,6 +517,8 @@ func zz15Leaves(t int, v any, alloc bool) []*int8 {
 		return []*int8{&x.Zz15DB.V, &x.U, &x.Zz15DA.Zz15DC.X, &x.Zz15DA.Zz15DC.Zz15DD.Y, &x.Zz15DB.Zz15DC.X, &x.Zz15DB.Zz15DC.Zz15DD.Y}
 	case *zz15T11:
 		return []*int8{&x.Zz15SC.X, &x.Zz15SC.Zz15SD.Y, &x.Zz15Rec.R, &x.Zz15SB.Zz15SC.X, &x.Zz15SB.Zz15SC.Zz15SD.Y}
+	case *zz15T13:
+		return []*int8{&x.A, &x.P, &x.Q, &x.R3, &x.M, &x.N, &x.B}
 	case *zz15T12:
 		return []*int8{&x.F000, &x.F001, &x.F002, &x.F003, &x.F004, &x.F005, &x.F006, &x.F007, &x.F008, &x.F009, &x.F010, &x.F011, &x.F012, &x.F013, &x.F014, &x.F015, &x.F016, &x.F017, &x.F018, &x.F019, &x.F020, &x.F021, &x.F022, &x.F023, &x.F024, &x.F025, &x.F026, &x.F027, &x.F028, &x.F029, &x.F030, &x.F031, &x.F032, &x.F033, &x.F034, &x.F035, &x.F036, &x.F037, &x.F038, &x.F039, &x.F040, &x.F041, &x.F042, &x.F043, &x.F044, &x.F045, &x.F046, &x.F047, &x.F048, &x.F049, &x.F050, &x.F051, &x.F052, &x.F053, &x.F054, &x.F055, &x.F056, &x.F057, &x.F058, &x.F059, &x.F060, &x.F061, &x.F062, &x.F063, &x.F064, &x.F065, &x.F066, &x.F067, &x.F068, &x.F069, &x.F070, &x.F071, &x.F072, &x.F073, &x.F074, &x.F075, &x.F076, &x.F077, &x.F078, &x.F079, &x.F080, &x.F081, &x.F082, &x.F083, &x.F084, &x.F085, &x.F086, &x.F087, &x.F088, &x.F089, &x.F090, &x.F091, &x.F092, &x.F093, &x.F094, &x.F095, &x.F096, &x.F097, &x.F098, &x.F099, &x.F100, &x.F101, &x.F102, &x.F103, &x.F104, &x.F105, &x.F106, &x.F107, &x.F108, &x.F109, &x.F110, &x.F111, &x.F112, &x.F113, &x.F114, &x.F115, &x.F116, &x.F117, &x.F118, &x.F119, &x.F120, &x.F121, &x.F122, &x.F123, &x.F124, &x.F125, &x.F126, &x.F127, &x.F128, &x.F129, &x.F130, &x.F131}
 	}
